@@ -452,7 +452,7 @@ pub fn run(ctx: &RunCtx) -> i32 {
     let meta = CheckMeta {
         property: "C07",
         level: "exploration",
-        rule: "trace specification over the event log of recording S3Auth / S3Route / S3Access (generic + 96 typed hooks, generated) / S3 implementations: for one aws-sdk-s3-encoded request per operation, re-issued as {anonymous, valid V4 header (signed and unsigned payload), valid V4 presigned, valid V2 header, valid V2 presigned, each with a broken signature, unknown access key, duplicated Authorization, malformed Authorization} plus valid / invalid POST forms, under access hook {none, allow, deny, deny-by-operation, deny-in-typed-hook} x custom route {none, matching, non-matching} x host parser {none, single} x provider {configured, absent}: order AuthLookup < RouteMatch < check < typed < backend, identity at every event = verified signer (or anonymous), nothing after a denial, denial code returned, backend iff approved, route handler iff verified; without provider every signature-presenting request refused with no event. The product is enumerated completely in both tiers. A cell is (class, hook, route, host, provider, operation, outcome).".into(),
+        rule: "trace specification over the event log of recording S3Auth / S3Route / S3Access (generic + 96 typed hooks, generated) / S3 implementations: for one aws-sdk-s3-encoded request per operation, re-issued as {anonymous, valid V4 header (signed and unsigned payload), valid V4 presigned, valid V2 header, valid V2 presigned, each with a broken signature, unknown access key, duplicated Authorization, malformed Authorization} plus valid / invalid POST forms, under access hook {none, allow, deny, deny-by-operation, deny-in-typed-hook} x custom route {none, matching, non-matching} x host parser {none, single} x provider {configured, absent}: order AuthLookup < RouteMatch < check < typed < backend, identity at every event = verified signer (or anonymous), nothing after a denial, denial code returned, backend iff approved, route handler iff verified; without provider every signature-presenting request refused with no event. The product is enumerated completely in both tiers. Overlap leg: 2..8 requests of random classes in flight together on one service (interleaved with seeded yields / parallel), events attributed by task-local tag; each request must be shown, refused, attributed and served as when alone. A cell is (class, hook, route, host, provider, operation, outcome).".into(),
         assumptions: vec![
             "validity of the signed classes is by construction with the reference signers validated in C05/C06/C10/C11".into(),
             "duplicated Authorization: rejection or anonymous treatment are both accepted, authentication is not".into(),
